@@ -57,6 +57,7 @@ class Executor(StmtMixin, ExprMixin, CallMixin, LibMixin):
         self.called_contracts = set()
         self.used_loops = set()
         self.loop_ordinals = {}
+        self.comp_ordinals = {}
         self.cls_preds = set()
         self.paths_explored = 0
         self.ended_paths = []
@@ -143,6 +144,9 @@ class Executor(StmtMixin, ExprMixin, CallMixin, LibMixin):
         loops.sort(key=lambda x: (x.lineno, x.col_offset))
         for i, l in enumerate(loops, 1):
             self.loop_ordinals[id(l)] = i
+        comps = [x for x in ast.walk(fnode) if isinstance(x, (ast.DictComp, ast.ListComp))]
+        comps.sort(key=lambda x: (x.lineno, x.col_offset))
+        self.comp_ordinals = {id(c): f"c{i}" for i, c in enumerate(comps, 1)}
         return len(loops)
 
     def verify(self, c):
@@ -156,6 +160,10 @@ class Executor(StmtMixin, ExprMixin, CallMixin, LibMixin):
         self.max_paths = c.max_paths
         nloops = self.number_loops(fi.node)
         for ordn in c.loops:
+            if isinstance(ordn, str):
+                if ordn not in self.comp_ordinals.values():
+                    raise BindingError(f"{c.target}: contract names comprehension {ordn} but the function has {len(self.comp_ordinals)} comprehensions")
+                continue
             if ordn > nloops:
                 raise BindingError(f"{c.target}: contract names loop #{ordn} but the function has {nloops} loops")
         path = Path()
